@@ -15,7 +15,7 @@ Open Scope Z_scope.
 Lemma wire_ok_chars p : Forall (fun c => isspace c = false /\ c <> semi) p -> wire_ok p = true.
 Proof.
   intro F. apply wire_ok_spec. split.
-  - induction F as [|c r [_ H] _ IH]; [reflexivity|]. simpl.
+  - induction F as [|c r [_ H] _ IH]; [reflexivity|]. cbn [mem_N].
     destruct (N.eqb_spec semi c) as [E|_]; [symmetry in E; contradiction|exact IH].
   - unfold no_trailing. apply Forall_rev in F. destruct (rev p) as [|c r]; [reflexivity|].
     inversion F as [|? ? [H _] _]; subst. rewrite H. reflexivity.
@@ -132,16 +132,14 @@ Section Inv5.
   (* a value accepted as a set message of (n, c, sub-type) with some ack is accepted with any ack *)
   Lemma vld_set_ack n c a a' s p : vld (mkMsg n c 1 a s p) = true -> (a' = 0 \/ a' = 1) ->
     vld (mkMsg n c 1 a' s p) = true.
-  Proof. rewrite !vld_spec. intros (A & B & C & D & E & F) H. repeat split; assumption. Qed.
+  Proof. rewrite !vld_spec. intros (A & B & C & D & E & F) H. repeat split; try assumption; lia. Qed.
 
   (* OTA responses: same header as the validated stream request, sub-type 1 / 3, any text *)
   Lemma vld_stream_response n c a s s' p p' : vld (mkMsg n c 4 a s p) = true -> (s' = 1 \/ s' = 3) ->
     vld (mkMsg n c 4 a s' p') = true.
   Proof.
-    rewrite !vld_spec. intros (A & B & C & D & E & F) H. repeat split; try assumption.
-    - unfold spec_child_ok in *. change (4 =? c_internal) with false in *. cbn [andb orb] in *. exact B.
-    - destruct H as [-> | ->]; destruct v; reflexivity.
-    - destruct H as [-> | ->]; destruct v; reflexivity.
+    rewrite !vld_spec. intros (A & B & C & D & E & F) H. split; [exact A|]. repeat split; try assumption.
+    destruct H as [-> | ->]; destruct v; reflexivity.
   Qed.
 
   (* validated internal messages other than id request / response carry child 255 *)
